@@ -59,6 +59,10 @@ def _with_id(ev, i):
 STATELESS = ("pass", "drop", "dup", "expand", "dropall")
 
 
+class Runaway(Exception):
+    pass
+
+
 def run_real(kinds, inp, shared=False):
     """returns dict(out=[ids], log=[(stage label,id)], emis={stage:[ids...]}, drains=[stage...]).
     shared=True: every stateless behaviour is ONE callback object registered without a context (a
@@ -73,6 +77,17 @@ def run_real(kinds, inp, shared=False):
 
     log, emis, drains = [], {i: [] for i in range(len(kinds))}, []
     tick = [0]
+    # upper bound on what ONE stage can be handed if every event is delivered once: dup doubles, expand triples,
+    # a gen context adds one event; anything beyond it is delivered more than once (a changed engine or base
+    # context can make that grow without bound - stop instead of running out of memory)
+    ub = len(inp) + 1
+    for k in kinds:
+        ub = ub * {"dup": 2, "expand": 3}.get(k, 1) + 1
+    limit = (len(kinds) + 1) * ub + 64
+
+    def guard(n):
+        if n > limit:
+            raise Runaway(f"more than {limit} deliveries in a pipeline whose stages can be handed at most {ub} events each")
 
     class Ctx0(AbstractContext):
         def __init__(self, idx, kind):
@@ -80,10 +95,16 @@ def run_real(kinds, inp, shared=False):
             self.idx, self.kind, self.h = idx, kind, []
 
         def drain(self):
+            # the idiom of the built-in contexts (mp_sync_tight, mp_calc_bw, flow_launch, ...): take what the base
+            # class returns and extend it in place; a context without a buffer just hands on the base class' list
             drains.append(self.idx)
-            r, self.h = self.h, []
+            r = super().drain()
+            guard(len(r) + len(self.h))
+            if self.h:
+                r += self.h
+                self.h = []
             if self.kind == "gen":
-                r = [_mk_event(9000)]      # an event synthesized at drain time
+                r.append(_mk_event(9000))      # an event synthesized at drain time
             emis[self.idx] += [e["args"]["id"] for e in r]
             return r
 
@@ -93,6 +114,7 @@ def run_real(kinds, inp, shared=False):
         def cb(event, context):
             x = event["args"]["id"]
             log.append((i, x))
+            guard(len(log))
             if kind == "pass":
                 r = [event]
             elif kind == "drop":
@@ -128,6 +150,7 @@ def run_real(kinds, inp, shared=False):
             def cb(event, context):
                 x = event["args"]["id"]
                 log.append((kind, x))
+                guard(len(log))
                 if kind == "pass":
                     return [event]
                 if kind == "drop":
@@ -144,19 +167,22 @@ def run_real(kinds, inp, shared=False):
     tp_idx = [i for i, k in enumerate(kinds) if k in ("collect", "apply")]
     tp_drained = [0]
 
-    class TwoPhase(AbstractContext):
+    class TwoPhase(barrier_mod.TwoPhaseWithBarrierContext):
+        """a two-phase context on the real base class: its drain flips the phase, the second drain releases what
+        the application phase held"""
         def __init__(self):
             super().__init__()
-            self.phase, self.count, self.held = False, 0, []
+            self.count, self.held = 0, []
 
         def drain(self):
             i = tp_idx[tp_drained[0]]
             tp_drained[0] += 1
             drains.append(i)
-            if not self.phase:
-                self.phase = True
-                return []
-            r, self.held = self.held, []
+            was_collecting = self.collection_phase()
+            r = super().drain()
+            if not was_collecting:
+                r += self.held
+                self.held = []
             emis[i] += [e["args"]["id"] for e in r]
             return r
     tp = TwoPhase()
@@ -165,6 +191,7 @@ def run_real(kinds, inp, shared=False):
         def cb(event, context):
             x = event["args"]["id"]
             log.append((i, x))
+            guard(len(log))
             if kind == "collect":
                 context.count += 1
                 r = [event]
@@ -208,6 +235,7 @@ def run_real(kinds, inp, shared=False):
             if k == "barrier":
                 def b(event, context, i=i):
                     log.append((i, event["args"]["id"]))
+                    guard(len(log))
                     return ep.pipeline_barrier(event, context)
                 b.__name__ = "pipeline_barrier"
                 proc.register_stage(b, bctx)
@@ -418,7 +446,12 @@ def oracle_on_case(ctx: Ctx, case, verbose=False):
                           f"earlier stage of this pipeline returned / delivered twice)", case)
         return {"out": got, "log": [], "emis": {}, "drains": []}
     kinds, inp = case["kinds"], case["input"]
-    r = run_real(kinds, inp, case.get("shared", False))
+    try:
+        r = run_real(kinds, inp, case.get("shared", False))
+    except Runaway as ex:
+        ctx.violation("engine-delivery", f"pipeline {kinds} on {len(inp)} input events: {ex} (events delivered more than "
+                                         f"once / delivered that no stage returned)", case)
+        return {"out": [], "log": [], "emis": {}, "drains": []}
     v = oracle(kinds, inp, r, case.get("shared", False))
     if verbose:
         print("real:", r)
